@@ -105,6 +105,13 @@ TEMPLATES = {
                    '--medium=%s,%s,%s' % (N(v['e2']), N(v['g2']), N(v['h2'])), '--boundary=circular', '--radial-count=8',
                    '--radial-radius=%s' % N(v['rr'])], False,
         lambda c, v: []),
+    'media3': (
+        dict(f=('r', 1, 100), e1=('r', 1, 80), g1=('r', 1e-4, 10), e2=('r', 1, 80), g2=('r', 1e-4, 10), h2=('r', -10, 10),
+             e3=('r', 1, 80), g3=('r', 1e-4, 10), h3=('r', -10, 10), u1=('r', 1, 100), u2=('r', 100, 1000)),
+        lambda v: ['-f', N(v['f']), '-w', WG, '--excitation-pulse=1', '--medium=%s,%s,0,%s' % (N(v['e1']), N(v['g1']), N(v['u1'])),
+                   '--medium=%s,%s,%s,%s' % (N(v['e2']), N(v['g2']), N(v['h2']), N(v['u2'])),
+                   '--medium=%s,%s,%s' % (N(v['e3']), N(v['g3']), N(v['h3']))], False,
+        lambda c, v: []),
     'transforms': (
         dict(f=('r', 1, 100), rx=('r', -180, 180), rz=('r', -180, 180), tx=('r', -30, 30), ty=('r', -30, 30), tz=('r', -30, 30),
              sc=('r', 0.1, 10), k1=('r', 0, 5), k2=('r', 0, 5)),
@@ -321,7 +328,7 @@ def main(args):
     ck = Check('C15', args)
     ck.shadow_stats = symx.load().stats
     names = list(TEMPLATES) if ck.tier == 'thorough' else ['source-1V-neighbour', 'tags+taper+bygeo', 'skin-per-tag', 'rlc+trap+laplace',
-                                                         'media', 'transforms']
+                                                         'media', 'media3', 'transforms']
     run_parallel(ck, 'checks.c15', [('roundtrip', (n,)) for n in names])
     ck.assumptions += ['argument lists are built from the listed templates; every numeric field of a template is an arbitrary value in '
                        'its stated range; geometry coordinates are concrete',
